@@ -5,7 +5,7 @@
    poll acks / dequeue / sendack / deliver on both sides), all windows 0..15 on each side, all MIUs,
    all message contents, all dequeue miu/icv arguments. *)
 From Coq Require Import ZArith List Bool Lia.
-From NV Require Import Base.Result Base.Bytes Model.Dlc Proofs.DlcBase Proofs.Dlc Proofs.DlcCor Proofs.DlcLive Gen.DlcK Bridge.Dlc.
+From NV Require Import Base.Result Base.Bytes Model.Dlc Proofs.DlcBase Proofs.Dlc Proofs.DlcCor Proofs.DlcLive.
 Import ListNotations.
 Open Scope Z_scope.
 
@@ -78,14 +78,6 @@ Theorem dlc_window_slots_true : forall c ops sd, cfg_ok c ->
   0 <= len (sent g) - gSA g <= rwl y /\ 0 <= gR g - gRA g <= rwl y.
 Proof. exact window_slots_true. Qed.
 Print Assumptions dlc_window_slots_true.
-
-(* tie by translation: the kernels regenerated from tco.py on this run are the model functions *)
-Theorem dlc_bridge_send_window_slots : forall x, gen_send_window_slots (rwr x) (vs x) (vsa x) = send_window_slots x.
-Proof. exact bridge_send_window_slots. Qed.
-Print Assumptions dlc_bridge_send_window_slots.
-Theorem dlc_bridge_recv_window_slots : forall x, gen_recv_window_slots (rwl x) (vr x) (vra x) = recv_window_slots x.
-Proof. exact bridge_recv_window_slots. Qed.
-Print Assumptions dlc_bridge_recv_window_slots.
 
 (* progress: from every reachable state a finite continuation consisting only of dequeue / deliver /
    recv steps (no further send) returns every accepted message to the peer application, both
